@@ -95,6 +95,19 @@ func VerifyFunction(p *Program, db *ContractDB, fc *FnContract) *FnResult {
 	}
 	pre := st.Clone()
 	env := x.newEnv(fn, nil, fc, params, st, pre)
+	// universally quantified ghost integers: fresh unconstrained constants
+	for _, g := range fc.Ghosts {
+		cw, ok := convWidths[g[1]]
+		if !ok {
+			res.Err = fmt.Errorf("%s: ghost %s: unknown integer type %s", fc.Name, g[0], g[1])
+			return res
+		}
+		var typ types.Type = &WideInt{Bits: cw.w, Signed: cw.s}
+		if obj := types.Universe.Lookup(g[1]); obj != nil {
+			typ = obj.Type()
+		}
+		env.Vars[g[0]] = TV{T: x.C.Fresh("ghost_"+g[0], SBV(cw.w)), Typ: typ}
+	}
 	// ghost lets
 	for _, l := range fc.Lets {
 		v, err := env.Eval(l.Expr)
@@ -145,15 +158,61 @@ func VerifyFunction(p *Program, db *ContractDB, fc *FnContract) *FnResult {
 		env2.Vars[k] = v
 	}
 	env2.Results = results
+	var caseTerm Term
+	if fc.Cases != nil {
+		cv, err := env2.intArg(fc.Cases.Expr, 64)
+		if err != nil {
+			res.Err = fmt.Errorf("%s: cases: %v", fc.Name, err)
+			return res
+		}
+		caseTerm = x.C.Name("case", cv)
+		inRange := And(bvCmp("bvsle", BVInt(int64(fc.CaseLo), 64), caseTerm), bvCmp("bvsle", caseTerm, BVInt(int64(fc.CaseHi), 64)))
+		x.C.AddObligation(fc.Name+"#cases-exhaustive", "post", fc.Name, st.PC, inRange, "case split "+fc.Cases.Text+" covers every value")
+	}
 	for _, en := range fc.Ensures {
 		t, err := env2.Bool(en.Expr)
 		if err != nil {
 			res.Err = fmt.Errorf("%s: ensures %s: %v", fc.Name, en.Label, err)
 			return res
 		}
-		o := x.C.AddObligation(fc.Name+"#post:"+en.Label, "post", fc.Name, st.PC, t, en.Text)
+		t = x.C.Name("post", t)
+		var o *Obligation
+		cs, ct, lo, hi := fc.Cases, caseTerm, fc.CaseLo, fc.CaseHi
+		if en.Cases != nil {
+			cv, err := env2.intArg(en.Cases.Expr, 64)
+			if err != nil {
+				res.Err = fmt.Errorf("%s: ensures %s: cases: %v", fc.Name, en.Label, err)
+				return res
+			}
+			cs, ct, lo, hi = en.Cases, x.C.Name("case", cv), en.CaseLo, en.CaseHi
+			inRange := And(bvCmp("bvsle", BVInt(int64(lo), 64), ct), bvCmp("bvsle", ct, BVInt(int64(hi), 64)))
+			// the remaining values are one more instance of the same obligation
+			x.C.AddObligation(fc.Name+"#post:"+en.Label, "post", fc.Name, And(st.PC, Not(inRange)), t, en.Text+" [case: outside the split range]")
+		}
+		if cs != nil {
+			for k := lo; k <= hi; k++ {
+				o = x.C.AddObligation(fc.Name+"#post:"+en.Label, "post", fc.Name, And(st.PC, Eq(ct, BVInt(int64(k), 64))), t, fmt.Sprintf("%s [case %s == %d]", en.Text, cs.Text, k))
+			}
+		} else {
+			o = x.C.AddObligation(fc.Name+"#post:"+en.Label, "post", fc.Name, st.PC, t, en.Text)
+		}
 		o.Detail = en.Text
 	}
+	// size hints for replayable models: small slices
+	var hints strings.Builder
+	n0 := len(x.C.decls)
+	x.C.queries = x.modelQueries(res.ParamTerms, nil)
+	for _, q := range x.C.queries {
+		if strings.HasSuffix(q.Label, ".len") {
+			fmt.Fprintf(&hints, "(assert (bvule %s #x0000000000000020))\n", q.T.S)
+		} else if strings.HasSuffix(q.Label, ".cap") {
+			fmt.Fprintf(&hints, "(assert (bvule %s #x0000000000000028))\n", q.T.S)
+		}
+	}
+	x.C.sizeHints = hints.String()
+	x.C.queries = append(x.C.queries, x.modelQueries(nil, res.ResultTerms)...)
+	x.C.lateDecls = append([]string{}, x.C.decls[n0:]...)
+	x.C.decls = x.C.decls[:n0]
 	return res
 }
 
@@ -175,6 +234,16 @@ func (x *Exec) applyContract(fr *Frame, st *State, fn *ssa.Function, fc *FnContr
 	}
 	pre := st.Clone()
 	env := x.newEnv(fn, nil, fc, args, st, pre)
+	for _, g := range fc.Ghosts {
+		// at a call site a ghost-quantified clause is assumed for one arbitrary instance only (weaker, hence sound)
+		if cw, ok := convWidths[g[1]]; ok {
+			var typ types.Type = &WideInt{Bits: cw.w, Signed: cw.s}
+			if obj := types.Universe.Lookup(g[1]); obj != nil {
+				typ = obj.Type()
+			}
+			env.Vars[g[0]] = TV{T: x.C.Fresh("ghost_"+g[0], SBV(cw.w)), Typ: typ}
+		}
+	}
 	for _, l := range fc.Lets {
 		v, err := env.Eval(l.Expr)
 		if err != nil {
